@@ -336,6 +336,71 @@ fn comment_file(fe: &str, id: &str, r: &mut Rng) -> Built {
                 b.raw(" */");
                 b.newline();
             }
+            9 if id == "python" => {
+                // a docstring is a string literal, not a comment: nothing in it is prose — not its words, not a line that
+                // looks like a comment (`# river` inside the string), whatever multi-byte text it holds
+                b.non(&format!("def {}():", r.s(IDS)), "code");
+                b.newline();
+                let q = r.s(&["\"\"\"", "'''"]);
+                let a = b.n;
+                b.raw("    ");
+                b.raw(q);
+                for i in 0..r.range(1, 3) {
+                    if i > 0 {
+                        b.newline();
+                        b.raw("    ");
+                        if r.chance(1, 3) {
+                            b.raw("# ");
+                        }
+                    }
+                    for j in 0..r.range(1, 4) {
+                        if j > 0 {
+                            b.raw(" ");
+                        }
+                        b.raw(if r.chance(1, 2) { r.s(A) } else { r.s(B) });
+                    }
+                }
+                b.raw(q);
+                let e = b.n;
+                b.forbidden.push((a, e, "docstring".into()));
+                b.newline();
+                b.non("    return 0", "code");
+                b.newline();
+            }
+            9 if matches!(id, "rust" | "swift" | "haskell" | "scala" | "dart") => {
+                // a nested block comment is ONE comment: the words before, inside and after the inner comment are prose,
+                // also when multi-byte code precedes it
+                let (o, c) = if id == "haskell" { ("{-", "-}") } else { ("/*", "*/") };
+                let ind = indent(r);
+                if l.indent_code {
+                    b.raw(ind);
+                }
+                b.raw(o);
+                b.raw(" ");
+                let k = r.range(1, 3);
+                b.prose(r, k);
+                b.raw(" ");
+                b.raw(o);
+                b.raw(" ");
+                let k = r.range(1, 3);
+                b.prose(r, k);
+                b.raw(" ");
+                b.raw(c);
+                if r.chance(1, 2) {
+                    b.newline();
+                    if l.indent_code {
+                        b.raw(ind);
+                    }
+                    b.raw("   ");
+                } else {
+                    b.raw(" ");
+                }
+                let k = r.range(1, 3);
+                b.prose(r, k);
+                b.raw(" ");
+                b.raw(c);
+                b.newline();
+            }
             8 => {
                 // a comment carrying an ignore marker, isolated by code lines
                 if l.indent_code {
